@@ -139,7 +139,15 @@ def correspondence(ctx):
                           dict(kind="monitor", op=tl[k][:400000], spec_verdict=r_, trace=tout[2 * k][:3000], frame_ends=tmeta[k][2]))
         if len(ctx.violations) >= 8:
             break
-    return dict(evaluations=ev, distinct_nontrivial=len({ln[:200] + str(len(ln)) for ln in lines}),
+    # deterministic model of ZSTD_decompressStream / ZSTD_decompressContinue (Model/DStream.lean): every call of every history must give the
+    # same (consumed, produced, return value - error class or exact input hint) as the real code
+    import ent_dstream
+    nb = len(ctx.violations)
+    dsr = ent_dstream.run(ctx)
+    for v in ctx.violations[nb:]:
+        v["replay"] = dict(v.get("replay") or {}, ent="dstream")
+    ev += dsr.get("evaluations", 0)
+    return dict(evaluations=ev, dstream_model_tie=dsr, distinct_nontrivial=len({ln[:200] + str(len(ln)) for ln in lines}),
                 rule="compression: inputs x parameter vectors x call histories (chunk lists with 1-byte and block-straddling sizes, output capacities down to 1 byte, continue/flush/end strings, stable-in with several small "
                      "continue calls, stable-out, dictionaries); decompression: compositions of the emitted frames and skippable frames under random input/output segmentations (0- and 1-byte calls), each observed call checked "
                      "against the spec LTS (Stream.dlegalNum) and the whole output against single-call decoding; distinct = distinct call lines",
@@ -147,6 +155,9 @@ def correspondence(ctx):
 
 
 def replay(ctx, data):
+    if data.get("ent") == "dstream":
+        import ent_dstream
+        return ent_dstream.replay(ctx, data)
     exe = frames.harness()
     rc, out, err = frames.run_lines(exe, [data["op"]])
     return dict(violates=True, note="re-executed; compare with the description", result=[o[:300] for o in out])
